@@ -135,8 +135,12 @@ func runScript(t *testing.T, sc script) (out outcome) {
 		results := atk.Attack(w.target, w, time.Duration(sc.du), "scripted")
 		released := map[int64]bool{}
 		closedSeen := false
+		recording := true
 		snap := func(st *step) {
 			synctest.Wait()
+			if !recording {
+				return
+			}
 			w.mu.Lock()
 			st.now = int64(time.Since(w.start))
 			st.npaces, st.pending, st.pe, st.ph = w.calls, w.pending, w.pe, w.ph
@@ -205,6 +209,23 @@ func runScript(t *testing.T, sc script) (out outcome) {
 			}
 			snap(&st)
 		}
+		consumeGot := func() bool {
+			st := step{kind: 4}
+			got := false
+			select {
+			case r, ok := <-results:
+				got = true
+				if ok {
+					st.cons, st.consSeq = 1, int64(r.Seq)
+				} else {
+					st.cons = 2
+					closedSeen = true
+				}
+			default:
+			}
+			snap(&st)
+			return got
+		}
 		stop := func() {
 			b := atk.Stop()
 			snap(&step{kind: 5, stop: b})
@@ -240,16 +261,16 @@ func runScript(t *testing.T, sc script) (out outcome) {
 		}
 		// finish: stop, let everything complete, drain
 		stop()
-		for i := 0; i < 100 && !closedSeen; i++ { // a stopped loop may still win the select against stopch a few times
+		for i := 0; i < 48 && !closedSeen; i++ { // a stopped loop may still win the select against stopch a few times (2^-48)
+			if i == 10 {
+				recording = false // keep driving, stop recording: only the final flags matter from here on
+			}
 			answer(0, false)
 			advance(20e6) // let a sleeping loop wake up
 			for complete(false) {
 			}
 			for j := 0; j < 200 && !closedSeen; j++ {
-				before := len(out.steps)
-				consume()
-				last := out.steps[before]
-				if last.cons == 0 {
+				if !consumeGot() {
 					break
 				}
 			}
